@@ -211,6 +211,17 @@ def run(ctx):
             o2 = core.attempt(P._LogicleTransform, data=arg, channel=chan, T=1000.0, M=5.0)
             if not o2.raised:
                 ctx.check(o2.value.T == 1000.0 and o2.value.M == 5.0, 'derive:override-ignored', cid, **d)
+                # the width still follows the documented rule, with the transform's OWN T and M: (M - log10(T/|r|))/2, never below 0
+                W2 = 0.0
+                for y in ys:
+                    if np.any(y < 0):
+                        W2 = max(W2, (5.0 - np.log10(1000.0 / abs(float(np.min(y))))) / 2)
+                ctx.check(abs(o2.value.W - W2) <= wtol * max(W2, 1) and o2.value.W >= 0, 'derive:documented-rules', cid,
+                          got=[float(o2.value.T), float(o2.value.M), float(o2.value.W)], want_W=W2, overrides='T=1000, M=5', **d)
+            o3 = core.attempt(P._LogicleTransform, data=arg, channel=chan, W=0.75)
+            if not o3.raised:
+                ctx.check(o3.value.W == 0.75 and abs(o3.value.T - Tr) <= 1e-12 * abs(Tr) and abs(o3.value.M - Mr) <= 1e-12 * Mr,
+                          'derive:override-ignored', cid, overrides='W=0.75', got=[float(o3.value.T), float(o3.value.M), float(o3.value.W)], **d)
         ctx.case_done(class_key=('derived', d['kind'], 'neg' if any(np.any(y < 0) for y in ys) else 'nonneg', nlist),
                       nontrivial=any(np.any(y < 0) for y in ys), distinct_key=core.digest(cid))
     # multidimensional data without channel must be refused
